@@ -92,6 +92,9 @@ class GenericContextProvider(RoleProvider):
                     if old_state_container is None:
                         msg = f'handle {proposed_st.Handle} not found'
                         raise ValueError(msg)
+                    if proposed_st.Handle in modified_state_handles[entity.handle]:
+                        msg = f'context state {proposed_st.Handle} is modified more than once'
+                        raise ValueError(msg)
                 if old_state_container is None:
                     # this is a new context state
                     # create a new unique handle
@@ -104,6 +107,9 @@ class GenericContextProvider(RoleProvider):
                         # set version and time in new state
                         proposed_st.BindingMdibVersion = mgr.new_mdib_version
                         proposed_st.BindingStartTime = time.time()
+                        # the binding starts now, it has no end yet
+                        proposed_st.UnbindingMdibVersion = None
+                        proposed_st.BindingEndTime = None
                     self._logger.info(
                         'new %s, DescriptorHandle=%s Handle=%s',
                         proposed_st.NODETYPE.localname,
@@ -121,6 +127,9 @@ class GenericContextProvider(RoleProvider):
                         old_state_container.ContextAssociation == pm_types.ContextAssociation.ASSOCIATED
                         and proposed_st.ContextAssociation != pm_types.ContextAssociation.ASSOCIATED
                     ):
+                        if proposed_st.ContextAssociation != pm_types.ContextAssociation.DISASSOCIATED:
+                            msg = f'associated context state {proposed_st.Handle} can only be disassociated'
+                            raise ValueError(msg)
                         # set in the entity state, update_from_other_container below skips these properties
                         old_state_container.UnbindingMdibVersion = mgr.new_mdib_version
                         old_state_container.BindingEndTime = time.time()
@@ -128,6 +137,9 @@ class GenericContextProvider(RoleProvider):
                         old_state_container.ContextAssociation != pm_types.ContextAssociation.ASSOCIATED
                         and proposed_st.ContextAssociation == pm_types.ContextAssociation.ASSOCIATED
                     ):
+                        if old_state_container.UnbindingMdibVersion is not None:
+                            msg = f'binding of context state {proposed_st.Handle} has ended, cannot associate it again'
+                            raise ValueError(msg)
                         old_state_container.BindingMdibVersion = mgr.new_mdib_version
                         old_state_container.BindingStartTime = time.time()
                         handles = self._mdib.xtra.disassociate_all(
